@@ -77,7 +77,10 @@ class ActionContext(abc.ABC):
         var_processor = VariableSetProcessor({}, self.trigger_context.var_cache)
 
         try:
-            result = self.trigger_context.evaluate_expression(watch)
+            success, result = self.trigger_context.try_evaluate_expression(watch)
+            if not success:
+                # the expression could not be evaluated, so this is an error result (result is the exception)
+                return WatchResult(source, watch, None, str(result)), {}, str(result)
             variable_id, log_str = var_processor.process_variable(watch, result)
 
             return WatchResult(source, watch, variable_id), var_processor.var_lookup, log_str
@@ -128,7 +131,10 @@ class ActionContext(abc.ABC):
             return False
         if self.location_action.condition is None or len(self.location_action.condition.strip()) == 0:
             return True
-        result = self.trigger_context.evaluate_expression(self.location_action.condition)
+        success, result = self.trigger_context.try_evaluate_expression(self.location_action.condition)
+        if not success:
+            # a condition that cannot be evaluated is not true
+            return False
         return str2bool(str(result))
 
 
